@@ -400,7 +400,7 @@ fn sweep_moved_chars(opts: &Opts, rep: &mut Report) {
                         Ok((None, _)) => (),
                         Err(msg) => {
                             let loc = msg.rsplit(" @ ").next().unwrap_or("").to_owned();
-                            if loc.starts_with("/repo/") {
+                            if crate::refm::in_repository(&loc) {
                                 rep.violation("C14", "panic-in-pattern-api", format!("panic@{loc}"), jobj! {"message" => msg, "case_id" => case_id});
                             } else {
                                 rep.inconclusive(format!("monitor panicked outside the repository code: {msg}"));
